@@ -28,11 +28,12 @@ fi
 if [ "${SEED_PHASE:-all}" = A ]; then
   echo "$SUITE" > "$OUT/.suite"; echo "$DEMO_WITH" > "$OUT/.demo_with"; echo "$DEMO_WITHOUT" > "$OUT/.demo_without"; exit 0
 fi
-# run our checks against it
-cd /verif
-[ -z "$(git -C /repo status --porcelain --untracked-files=no)" ] || { echo "/repo dirty"; exit 2; }
-rm -rf /tmp/evidence_backup && cp -r /verif/evidence /tmp/evidence_backup
-git -C /repo apply "$OUT/patch.diff" || { echo "patch does not apply to /repo"; exit 2; }
+# run our checks against it (REPO_DIR / VERIF_RUN_DIR allow an isolated copy while /repo is in use)
+REPO_DIR="${REPO_DIR:-/repo}"; VERIF_RUN_DIR="${VERIF_RUN_DIR:-/verif}"
+cd "$VERIF_RUN_DIR"
+[ -z "$(git -C "$REPO_DIR" status --porcelain --untracked-files=no)" ] || { echo "/repo dirty"; exit 2; }
+rm -rf /tmp/evidence_backup_$$ && cp -r "$VERIF_RUN_DIR/evidence" /tmp/evidence_backup_$$
+git -C "$REPO_DIR" apply "$OUT/patch.diff" || { echo "patch does not apply to /repo"; exit 2; }
 RES=""
 for c in $CHECKS; do
   t0=$(date +%s)
@@ -41,8 +42,8 @@ for c in $CHECKS; do
   h=$(echo "$o" | grep -E "^history:" | head -1 | cut -c1-300)
   RES="$RES$c: rc=$rc $(($(date +%s)-t0))s | $v | $h\n"
 done
-git -C /repo checkout -- .
-rm -rf /verif/evidence && mv /tmp/evidence_backup /verif/evidence
+git -C "$REPO_DIR" checkout -- .
+rm -rf "$VERIF_RUN_DIR/evidence" && mv /tmp/evidence_backup_$$ "$VERIF_RUN_DIR/evidence"
 echo -e "$RES"
 python3 - "$ID" "$SUITE" "$DEMO_WITH" "$DEMO_WITHOUT" "$RES" "$CHECKS" "$OUT" <<'PY'
 import sys, json
